@@ -336,6 +336,22 @@ class IKRun:
         if k == "pose":
             t = tm(list(g["taa"]))
             return t, np.array(t.gTM(), float), None
+        if k == "halfturn":
+            # the pose of g["theta"] with the tool rolled by exactly half a turn about one of its own (or the space
+            # frame's) coordinate axes: started from g["theta"] the error rotation is pi up to rounding, where
+            # (trace-1)/2 can round to just above -1 and an acos-based log reads the half turn as ~1e-8 rad
+            S, M = self.geom()
+            T0 = self.fk(g["theta"]) if g.get("how", "lib") == "lib" else poe(S, M, np.array(g["theta"], float))
+            w = np.zeros(6)
+            w[int(g["axis"])] = 1.0
+            H = exp_twist(w, math.pi)
+            T = H @ T0 if g.get("frame") == "space" else T0 @ H
+            if g.get("frame") == "space":
+                T[:3, 3] = T0[:3, 3]
+            return tm(T.copy()), T, None
+        if k == "matrix":
+            T = np.array(g["T"], float)
+            return tm(T.copy()), T, None
         if k == "current":
             # "hold position": the pose the arm currently reports (stale after a tool change without a refresh)
             t = self.arm.getEEPos()
@@ -589,7 +605,7 @@ class IKRun:
             detail = dict(sig, rot_tol=rot_tol, pos_tol=pos_tol, ang=ang, lin=min(lin), restarts=restarts,
                           reachable=info["reachable"], raw_free_max=self.raw_free_max,
                           prismatic_wrapped=self._prismatic_wrapped(path),
-                          lib_ang_ok=bool(lib_ang <= rot_tol * (1 + 1e-6) + 1e-12),
+                          lib_ang_ok=bool(lib_ang <= rot_tol * (1 + 1e-6) + 1e-12), ang_from_pi=abs(ang - math.pi),
                           wrap_explains=bool(excess <= self.raw_free_max * 4e-15))
             if self.raw_free_max >= 1e4:
                 P["free_solver_returned_huge_angles"] += 1
@@ -676,12 +692,21 @@ class IKRun:
                         a_f, l_f = pose_errors(self.fk(th1), G)
                         rb = self.reach()
                         blind = bool(a_f <= 1e-7 and min(l_f) <= 3e-7 * max(rb[1] if rb else 10.0, 1.0))
+                        # the other explanation: the solution has a joint at (numerically) zero.  FKinSpace drops the
+                        # rotation of a joint below 1e-6 rad (NearZero), so the pose jumps by up to 1e-6 rad x lever as
+                        # the iterate crosses that band and Newton's method oscillates there at a few 1e-6
+                        ts_ = np.array(g["theta"], float)
+                        tsw = (ts_ + math.pi) % (2 * math.pi) - math.pi
+                        nearzero = bool(np.any(np.abs(tsw) < 1e-6) and a_f <= 2e-5
+                                        and min(l_f) <= 2e-5 * max(rb[1] if rb else 10.0, 1.0))
                     except Exception:
                         blind = False
+                        nearzero = False
                     raise Violation("K-local", "%s (%s path) started %.4f rad (2-norm) from an in-limit, non-singular solution "
                                     "(sigma_min %.3f, margin %.3f rad) and reported failure (max_iters=%d, tolerances %.1e/%.1e)" % (
                                         op, path, ok_pre[0], ok_pre[1], ok_pre[2], st.get("max_iters", 30), pos_tol, rot_tol),
-                                    dict(sig, max_iters=st.get("max_iters", 30), min_tol=min(pos_tol, rot_tol), blind_explains=blind))
+                                    dict(sig, max_iters=st.get("max_iters", 30), min_tol=min(pos_tol, rot_tol), blind_explains=blind,
+                                         nearzero_explains=nearzero))
         # reach probes / classes
         if pos_tol > rot_tol:
             P["tol_pos_gt_rot"] += 1
@@ -946,9 +971,15 @@ def gen_trace(seed):
         return out
 
     def goal():
-        k = pick_weighted(ro, [("fk", 6.0), ("boundary", 1.5), ("beyond", 1.5), ("pose", 0.7), ("current", 1.0)])
+        k = pick_weighted(ro, [("fk", 6.0), ("boundary", 1.5), ("beyond", 1.5), ("pose", 0.7), ("current", 1.0), ("halfturn", 0.4)])
         if k == "current":
             return {"k": "current"}, None
+        if k == "halfturn":
+            th = in_limits(ro.choice([0.3, 1.0]))
+            if ro.random() < 0.5:
+                th = [min(max(round(x / (math.pi / 2)) * (math.pi / 2), mins[j]), maxs[j]) for j, x in enumerate(th)]
+            return {"k": "halfturn", "theta": [float(x) for x in th], "axis": ro.randrange(3),
+                    "frame": ro.choice(["tool", "tool", "space"]), "how": ro.choice(["lib", "poe"])}, None
         if k == "fk":
             th = in_limits(ro.choice([0.3, 0.6, 1.0]), margin=ro.choice([0.0, 0.16]))
             if ro.random() < 0.1:
@@ -972,6 +1003,9 @@ def gen_trace(seed):
         if st["op"] == "IK" and ro.random() < p_protect:
             st["protect"] = True
         sk = pick_weighted(ro, [("none", 2.0), ("near", 3.0), ("mid", 2.0), ("far", 3.0), ("outside", 0.4)])
+        if g["k"] == "halfturn" and ro.random() < 0.8:
+            st["start"] = list(g["theta"])      # half a turn of the tool away from the goal, to the last bit
+            sk = "given"
         if th is not None and sk == "near":
             d = _unit_n(ro, n)
             rad = ro.choice([0.0, 0.005, 0.0199])
@@ -1294,7 +1328,7 @@ def signature(trace, violation):
     last = trace["steps"][-1] if trace["steps"] else {}
     return {"clause": violation.clause, "op": d.get("op", last.get("op")), "path": d.get("path"), "ang": d.get("ang"),
             "rot_tol": d.get("rot_tol"), "raw_free_max": d.get("raw_free_max"), "lin": d.get("lin"), "min_tol": d.get("min_tol"),
-            "lib_ang_ok": d.get("lib_ang_ok"), "wrap_explains": d.get("wrap_explains"), "blind_explains": d.get("blind_explains"),
+            "lib_ang_ok": d.get("lib_ang_ok"), "ang_from_pi": d.get("ang_from_pi"), "wrap_explains": d.get("wrap_explains"), "blind_explains": d.get("blind_explains"), "nearzero_explains": d.get("nearzero_explains"),
             "prismatic_wrapped": d.get("prismatic_wrapped"),
             "arm": d.get("arm"), "exception": d.get("exception"), "check": last.get("check"),
             "n_steps": len(trace["steps"]), "reachable": d.get("reachable")}
